@@ -263,6 +263,17 @@ func (c *factCtx) hdrFacts(h map[string][]string, key string) string {
 	return "b" + c.pemFacts([]byte(un), 2)
 }
 
+// instant: a verification instant as nanoseconds since the epoch.  The zero time.Time (an entry of the time set the caller
+// left unset: 1 January of year 1) is outside UnixNano's range; it is before every date a certificate, document or CRL can
+// carry, which is all the comparisons made with it can see — the model gets the smallest representable instant.
+// (Only the two CRL instants may be left unset in generated time sets: x509 path validation reads a zero time as "now".)
+func instant(t time.Time) int64 {
+	if t.IsZero() {
+		return -1 << 62
+	}
+	return t.UnixNano()
+}
+
 func levelsFacts(ls []mLevel) string {
 	if len(ls) == 0 {
 		return "-"
@@ -358,7 +369,7 @@ func (w *World) Facts(fx string, msgTokens string, clock time.Time) string {
 	if s.Now == nil {
 		c.add("now=nil")
 	} else {
-		c.add("now=%d,%d,%d,%d,%d", s.Now[0].UnixNano(), s.Now[1].UnixNano(), s.Now[2].UnixNano(), s.Now[3].UnixNano(), s.Now[4].UnixNano())
+		c.add("now=%d,%d,%d,%d,%d", instant(s.Now[0]), instant(s.Now[1]), instant(s.Now[2]), instant(s.Now[3]), instant(s.Now[4]))
 	}
 	c.add("clock=%d", clock.UnixNano())
 	// chain
